@@ -125,6 +125,24 @@ def run_case(names, texts, lookups, le):
         want = brute(names, text)
         if got != want and not err:
             err = 'iter(%r) = %r, occurrences %r' % (text, got, want)
+    # scans of one finalised matcher advanced in turns (iter() is a generator): each reports what it reports alone
+    if len(texts) >= 2 and not err:
+        gens = [t.iter(x) for x in texts[:3]]
+        outs = [[] for _ in gens]
+        live = list(range(len(gens)))
+        while live:
+            for i in list(live):
+                try:
+                    tok = next(gens[i])
+                    outs[i].append((tok.start, tok.end, tok.string, tok.value))
+                except StopIteration:
+                    live.remove(i)
+                except Exception as ex:   # noqa
+                    live.remove(i)
+                    err = err or 'interleaved scans: iter(%r) raised %s' % (texts[i], type(ex).__name__)
+        for x, o in zip(texts[:3], outs):
+            if sorted(o) != brute(names, x) and not err:
+                err = 'interleaved scans: iter(%r) = %r, alone %r' % (x, sorted(o), brute(names, x))
     return err, obs
 
 
